@@ -647,6 +647,28 @@ func c02sRandomStep(w *c02sWorld, rng *kit.RNG) c02sStep {
 	}
 }
 
+// c02sDirected: replica indexes 0=a 1=b 2=c.
+func c02sDirected() [][]c02sStep {
+	st := func(op string, a, b int) c02sStep { return c02sStep{op, a, b} }
+	return [][]c02sStep{
+		// D1: second leader learned its epoch boundary by replication; first leader rejoins with a tail
+		{st("elect", 0, 0), st("follow", 1, 0), st("follow", 2, 0), st("pub", 0, 3), st("fetch", 1, 3), st("fetch", 2, 3), st("fetch", 1, 0), st("fetch", 2, 0), st("commit", 0, 0),
+			st("pub", 0, 2), st("fail", 0, 0), st("elect", 1, 0), st("follow", 2, 0), st("pub", 0, 2), st("fetch", 2, 3), st("fetch", 2, 0), st("commit", 0, 0), st("fetch", 2, 0),
+			st("fail", 0, 0), st("elect", 2, 0), st("follow", 0, 0), st("follow", 1, 0), st("pub", 0, 1)},
+		// D2: a lagging follower (c, at offset 2) receives one batch [3(e old), 4, 5(e new)] that spans two leader epochs, is elected later, and the first leader rejoins with a tail
+		{st("elect", 0, 0), st("follow", 1, 0), st("follow", 2, 0), st("pub", 0, 2), st("fetch", 1, 3), st("fetch", 2, 3), st("pub", 0, 2), st("fetch", 1, 3), st("fetch", 2, 1), st("fetch", 1, 0),
+			st("shrink", 2, 0), st("commit", 0, 0), st("fetch", 1, 0),
+			st("pub", 0, 2), st("fail", 0, 0), st("elect", 1, 0), st("follow", 2, 0), st("pub", 0, 2), st("fetch", 2, 3), st("fetch", 2, 0), st("expand", 2, 0), st("fetch", 2, 0),
+			st("commit", 0, 0), st("fetch", 2, 0), st("fail", 0, 0), st("elect", 2, 0), st("follow", 0, 0), st("follow", 1, 0), st("pub", 0, 1)},
+		// D3: leader elected on an empty log, writes, dies; successor elected on an empty log too; first leader rejoins
+		{st("elect", 0, 0), st("follow", 1, 0), st("follow", 2, 0), st("pub", 0, 2), st("fail", 0, 1), st("elect", 1, 0), st("follow", 2, 0), st("pub", 0, 3), st("fetch", 2, 3),
+			st("fetch", 2, 0), st("commit", 0, 0), st("restart", 0, 0), st("follow", 0, 0), st("fetch", 0, 3), st("fetch", 0, 3)},
+		// D4: follower seen caught up, leader commits alone, follower re-expansion attempted while behind, leader dies
+		{st("elect", 0, 0), st("follow", 1, 0), st("follow", 2, 0), st("pub", 0, 1), st("fetch", 1, 3), st("fetch", 1, 0), st("shrink", 1, 0), st("shrink", 2, 0), st("pub", 0, 3), st("commit", 0, 0),
+			st("expand", 1, 0), st("fail", 0, 1), st("elect", 1, 0), st("follow", 2, 0), st("pub", 0, 1)},
+	}
+}
+
 func c02sAssumptions(rep *kit.Report) {
 	rep.Assume("step-driven units: the controller is played by the harness with the rules the server implements — election only of a live ISR member other than the failed leader; commit = min over the ISR of the offsets reported in fetch requests (a re-added member counts as -1 until it fetches); shrink of any follower at any time (lag timeout); expand of a follower the current leader has seen caught up within the lag window and whose latest reported offset has reached the leader's HW (replicator.tick); a deposed leader keeps appending in its old epoch until it follows the new one; a crash leaves any earlier HW value in the checkpoint file")
 	rep.Assume("step-driven units execute the real log / epoch-cache / truncation / replication-framing / follower-handler code; NATS, Raft and timers are not involved; a finding of these units is confirmed on a real cluster before it is reported as a defect")
@@ -658,6 +680,35 @@ func TestVerifC02Steps(t *testing.T) {
 	defer rep.Write()
 	rep.SetRule("seeded random schedules (25-70 steps) over {pub at leader, pub at deposed zombie leader, fetch(follower,batch 0-3), commit, shrink, expand, fail leader (isolate/kill), elect(ISR member), follow (epoch-based truncation via the real leader answer), crash with stale HW checkpoint, restart} on three real commit logs with tiny segments, then heal + converge; oracle: one committed table fed from every replica's (HW, log) after each fetch/commit, every elected leader holds all committed offsets unchanged, final prefix agreement; non-trivial = schedule had >=2 elections and >=1 truncating follow; distinct = schedule text")
 	c02sAssumptions(rep)
+	// Directed schedules: the shapes that are known to be delicate are always
+	// executed, whatever the seed (replication-learned epoch boundary; a
+	// replicated batch that spans two leader epochs; election on an empty log;
+	// re-expansion of the ISR).
+	for di, d := range c02sDirected() {
+		w, err := newC02sWorld(rep, 1<<20)
+		if err != nil {
+			rep.Inconc(err.Error())
+			continue
+		}
+		for _, st := range d {
+			if w.bad {
+				break
+			}
+			if !w.apply(st) {
+				w.logf("SKIPPED %s (not enabled)", st)
+			}
+		}
+		w.finish()
+		rep.Eval()
+		rep.Count("directed_schedules", 1)
+		if w.elections >= 2 {
+			rep.Nontrivial(fmt.Sprintf("directed-%d", di))
+		}
+		if di < 2 {
+			rep.Sample(map[string]any{"directed": di, "schedule": strings.Join(w.trace, " ; ")})
+		}
+		w.close()
+	}
 	root := kit.NewRNG(kit.Mix(kit.Seed(), 0xC025))
 	n := kit.Scale(500, 8000)
 	seeds := make([]uint64, n)
